@@ -409,6 +409,24 @@ func init() {
 			}, nil, noPanic)
 	}
 	runners["C14"] = func(cfg *runCfg) (*Summary, error) {
+		sum, err := runC14Interp(cfg)
+		if err != nil {
+			return nil, err
+		}
+		n := 300
+		if cfg.tier == "thorough" {
+			n = 5000
+		}
+		if err := genPoolCases(cfg, sum, newPRNG(cfg.seed+77), n); err != nil {
+			return nil, err
+		}
+		sum.Rule += "; plus histories of AcquireFrom / Reset / release-and-acquire through the context pool over 1-3 contexts and two counting pools (and an unregistered pool name), log of Get / Reset / Put events compared with the pool model, oracle: each borrowed object reset and put back exactly once, never handed out twice"
+		return sum, nil
+	}
+}
+
+func runC14Interp(cfg *runCfg) (*Summary, error) {
+	{
 		return runInterp(cfg, "C14", 160, 1800,
 			"sequences of 2-4 jobs (random core-grammar programs and documents, some failing midway through injected errors, some breaking out of nested loops, cond-OK helpers, getters, context variables) on one context with Reset between jobs; oracle: each job shows exactly what it shows on a newly created context",
 			func(r *prng, i int, st map[string]int) *ICase {
@@ -428,6 +446,9 @@ func init() {
 				freshEqualsReused(c, sum)
 			})
 	}
+}
+
+func init() {
 	runners["C15"] = func(cfg *runCfg) (*Summary, error) {
 		var pending []*ICase
 		var free *ICase
@@ -667,7 +688,7 @@ func genBuiltinJob(r *prng, st map[string]int) Job {
 			}
 			lines = append(lines, d+" = "+pick(r, incoming)+"|"+pick(r, []string{"ifThenElse", "ifel"})+"("+strings.Join(as, ", ")+")")
 		case 5:
-			lines = append(lines, pick(r, []string{"ts.I64", "ts.I8", "obj.Status", "ts.S"})+" = "+pick(r, []string{"atoi", "strToInt"})+"("+pick(r, []string{"jso.s1", "jso.s2", "jso.n", `"`+strings.ReplaceAll(pick(r, strs[:20]), `"`, "")+`"`, ""})+")")
+			lines = append(lines, pick(r, []string{"ts.I64", "ts.I8", "obj.Status", "ts.S"})+" = "+pick(r, []string{"atoi", "strToInt"})+"("+pick(r, []string{"jso.s1", "jso.s2", "jso.n", `"` + strings.ReplaceAll(pick(r, strs[:20]), `"`, "") + `"`, ""})+")")
 		case 6:
 			lines = append(lines, pick(r, []string{"ts.U64", "ts.U8", "obj.Ustate", "ts.S"})+" = "+pick(r, []string{"atou", "strToUint"})+"("+pick(r, []string{"jso.s1", "jso.s2", "jso.n", "jso.one"})+")")
 		case 7:
